@@ -49,22 +49,32 @@ def model_fx(d):
 
 
 def static_max_from_table(g, features, release=False):
-    """Python mirror of Shape.static_max_of (the Coq side pins the two harness builds in C01_source_static_max)."""
-    for f, rel_only, lvl in g["static"]:
-        if rel_only == release and f in features:
-            return lvl
-    return 5
+    """Python mirror of Shape.static_max_of on the table as read (the Coq side pins the harness builds in C01_source_static_max
+    and proves C01_static_cap_is_configured for every selection)."""
+    def first(rel):
+        for f, rel_only, lvl in g["static"]:
+            if rel_only == rel and f in features:
+                return lvl
+        return None
+    r = first(release)
+    if r is None and release and g.get("static_ft"):
+        r = first(False)
+    return 5 if r is None else r
 
 
 def check_source_summary(ctx, rep, d, g):
     """Coq's view of the generated file == Python's reading (guards against the two drifting apart)."""
     try:
-        res = vlib.coq_eval(ctx, REQUIRES, [("summary", "src_summary"), ("smax", '[src_static_max []; src_static_max ["max_level_info"%string]]')],
+        res = vlib.coq_eval(ctx, REQUIRES, [("summary", "src_summary"),
+                                            ("smax", '[src_static_max []; src_static_max ["max_level_info"%string]; '
+                                                     'src_static_max_of true ["max_level_info"%string; "release_max_level_trace"%string]; '
+                                                     'src_static_max_of true ["max_level_info"%string]]')],
                             tag="source_summary", shards=1)
         got = res["summary"]     # [src_fx, dispatch_shape_ok, guard_shape_ok, #unrecognised dispatch.rs, #unrecognised elsewhere]
         ok = got[0] == (1 if model_fx(d) else 0) and got[3:] == [d["unrec"], g["unrec"]] and \
             (d["unrec"] > 0 or got[1] == 1) and (g["unrec"] > 0 or got[2] == 1) and \
-            res["smax"] == [static_max_from_table(g, []), static_max_from_table(g, ["max_level_info"])]
+            res["smax"] == [static_max_from_table(g, []), static_max_from_table(g, ["max_level_info"]),
+                            static_max_from_table(g, ["max_level_info", "release_max_level_trace"], True), static_max_from_table(g, ["max_level_info"], True)]
         rep.tie("translator:python-reading==coq-reading", ok, "src_summary=%s src_static_max=%s" % (got, res["smax"]), None if ok else {"coq": res})
     except Exception as ex:
         rep.tie("translator:python-reading==coq-reading", False, str(ex)[:300])
@@ -193,11 +203,25 @@ def coq_case(pool, case, x=False):
 # ------------------------------------------------------------------------------------------------
 # implementation side
 
-def build(ctx, rep, release=False, capped=False):
-    """Default build: harness/dispatch (STATIC_MAX_LEVEL = TRACE).  capped=True: harness/dispatch_info, the same source
-    built against tracing with `max_level_info` (STATIC_MAX_LEVEL = INFO in debug builds) — its own package, so both stay cached."""
-    pkg, exe = ("dispatch_info", "h_dispatch_info") if capped else ("dispatch", "h_dispatch")
-    ok, paths, log = vlib.cargo_build(ctx, pkg, [exe], release=release)
+BUILDS = {
+    # variant: (harness package, binary, tracing features, cargo --release i.e. no debug assertions)
+    None: ("dispatch", "h_dispatch", [], False),
+    "info": ("dispatch_info", "h_dispatch_info", ["max_level_info"], False),
+    "rel_trace": ("dispatch_rel_trace", "h_dispatch_rel_trace", ["max_level_info", "release_max_level_trace"], True),
+    "rel_info": ("dispatch_rel_info", "h_dispatch_rel_info", ["max_level_info"], True),
+}
+LEVEL_NAMES = ["off", "error", "warn", "info", "debug", "trace"]
+
+
+def build(ctx, rep, release=False, capped=False, variant=None):
+    """Default build: harness/dispatch (STATIC_MAX_LEVEL = TRACE).  Variants (each its own package with the same source via a
+    symlink, so all stay cached): "info" = `max_level_info` with debug assertions; "rel_trace" / "rel_info" = release-profile
+    builds (no debug assertions) with `max_level_info` + `release_max_level_trace` / with only `max_level_info`."""
+    if capped:
+        variant = "info"
+    pkg, exe, features, rel = BUILDS[variant]
+    rel = rel or release
+    ok, paths, log = vlib.cargo_build(ctx, pkg, [exe], release=rel)
     if not ok:
         rep.tie("build:" + exe, False, vlib.last_error(log))
         return None, None
@@ -205,7 +229,17 @@ def build(ctx, rep, release=False, capped=False):
     rows = [json.loads(l) for l in out.splitlines() if l.startswith("{")]
     pool = [r for r in rows if "i" in r]
     smax = [r for r in rows if "static_max" in r][0]["static_max"]
-    return paths[exe], {"pool": pool, "static_max": smax, "features": ["max_level_info"] if capped else [], "release": release}
+    return paths[exe], {"pool": pool, "static_max": smax, "features": features, "release": rel}
+
+
+def configured_cap(features, release):
+    """What the feature NAMES configure for this profile (Shape.configured_cap): the most restrictive selected
+    `release_max_level_<n>` (no debug assertions) / `max_level_<n>`; None = the family selects nothing."""
+    prefix = "release_max_level_" if release else "max_level_"
+    for lvl, n in enumerate(LEVEL_NAMES):
+        if prefix + n in features:
+            return lvl
+    return None
 
 
 def run_impl(ctx, binpath, cases, tag="batch"):
